@@ -100,13 +100,17 @@ def handle (kind : String) (args : List String) (impl : String) : String :=
       -- spec: after every op the reported usable hosts are exactly the members flagged healthy in the
       -- preferred tier (computed from the model's membership/flags, not from its healthy maps), and no
       -- member's removal latch is closed while every removed member's is
+      -- a list handed out by Healthy() is a snapshot: readers use it without the lock, it must never change afterwards
+      let changed := (impl.splitOn " !published-lists-changed").length > 1
+      let impl := (impl.splitOn " !published-lists-changed").headD impl
       let implH := ((impl.splitOn " X[").headD "").splitOn "|" |>.map stripRet
       let agree := implH.length == ss.length && (implH.zip ss).all fun (i, e) => e == "~" || i == e
       -- `retired_objects_are_latched` / F-06a: whatever was stored and is not any more has its removal latch closed
       -- (its established connections are closed), and no current member's latch is
       let implX := ((impl.splitOn " X[").getD 1 "").dropEnd 1 |>.toString
       let latchOk := ("X[" ++ implX ++ "]") == showRemoved sf ids
-      let sp := if !agree then s!"usable-hosts expected={"|".intercalate ss}"
+      let sp := if changed then "a-list-returned-by-Healthy-changed-behind-its-reader"
+                else if !agree then s!"usable-hosts expected={"|".intercalate ss}"
                 else if !latchOk then s!"removal-latches expected={showRemoved sf ids}" else ""
       let d := if impl == m then "" else s!"DIFF model={m} impl={impl}"
       let spS := if sp == "" then "" else s!"SPEC {sp} impl={impl}"
